@@ -260,6 +260,12 @@ func (r *Runner) Run(b *Behaviour) error {
 			return err
 		}
 	}
+	// cleanup (not part of the behaviour): do not leave a rollback timer behind
+	if id, _ := r.ds.D.VerifOpenTxn(); id != "" {
+		cctx, cancel := context.WithTimeout(ctx, time.Second)
+		r.ds.D.TransactionConfirm(cctx, id)
+		cancel()
+	}
 	return nil
 }
 
@@ -278,27 +284,28 @@ func (r *Runner) buildIntent(ctx context.Context, in *Intent) (*types.Transactio
 		req.Delete = true
 		req.Orphan = true
 	}
+	// list entries for which the intent defines a non-key leaf: their keys are implied by the path
+	covered := map[string]bool{}
 	for _, kv := range in.Upd {
 		l := u.Leaf(kv[0])
 		if l == nil {
 			return nil, fmt.Errorf("unknown leaf %s", kv[0])
 		}
-		if l.Key != nil {
-			continue // key leaves are implied by the path
+		if l.Key == nil && l.Entry != nil {
+			covered[*l.Entry] = true
 		}
+	}
+	for _, kv := range in.Upd {
+		l := u.Leaf(kv[0])
+		if l.Key != nil && covered[*l.Entry] {
+			continue
+		}
+		// a key leaf of an entry the intent only names (keys only) is sent explicitly
 		tv, err := u.TypedValue(l, kv[1])
 		if err != nil {
 			return nil, err
 		}
 		req.Update = append(req.Update, &sdcpb.Update{Path: u.Path(l), Value: tv})
-	}
-	// an intent that only names a list entry (keys only)
-	if len(req.Update) == 0 && in.Kind == "set" {
-		for _, kv := range in.Upd {
-			l := u.Leaf(kv[0])
-			tv, _ := u.TypedValue(l, kv[1])
-			req.Update = append(req.Update, &sdcpb.Update{Path: u.Path(l), Value: tv})
-		}
 	}
 	return r.ds.D.SdcpbTransactionIntentToInternalTI(ctx, req)
 }
@@ -461,7 +468,7 @@ func (r *Runner) txset(ctx context.Context, st *Step, ev *Event) error {
 	if err := r.post(ctx, ev); err != nil {
 		return err
 	}
-	if !r.NoEnvSync && ev.Ret == "ok" && !st.Dry {
+	if !r.NoEnvSync {
 		return r.ds.SyncMirror(ctx)
 	}
 	return nil
